@@ -25,7 +25,7 @@ def _trap() -> Any:
     yield "trap"
 
 
-class LM:
+class LogManager:
     """Logging manager usable in `with` and `async with`; the async methods suspend."""
 
     def __init__(self, env: "Env", i: int, swallow: bool, shape: str = "self"):
@@ -38,7 +38,7 @@ class LM:
     def __repr__(self) -> str:
         return f"<LM {self.i}>"
 
-    def __enter__(self) -> "LM":
+    def __enter__(self) -> "LogManager":
         self.env.log.append(("entered", self.i, self))
         return self._value()
 
@@ -47,7 +47,7 @@ class LM:
         self.env.log.append(("exit-end", self.i, self))
         return self.swallow and exc[0] is not None and issubclass(exc[0], Err)
 
-    async def __aenter__(self) -> "LM":
+    async def __aenter__(self) -> "LogManager":
         await _trap()
         self.env.log.append(("entered", self.i, self))
         return self._value()
@@ -60,6 +60,9 @@ class LM:
             # __aexit__ returns (or is left by an exception thrown in): either way it is over
             self.env.log.append(("exit-end", self.i, self))
         return self.swallow and exc[0] is not None and issubclass(exc[0], Err)
+
+
+LM = LogManager
 
 
 class Env:
@@ -264,9 +267,17 @@ def all_runs(src: str) -> List[Tuple[Tuple[bool, ...], Optional[int]]]:
     return runs
 
 
-def observe_all(src: str, kind: str, want_real: bool = True) -> List[Dict[str, Any]]:
-    """Every real suspension of every run: lasti, truth, real inspect_frame, real contexts."""
+def observe_all(src: str, kind: str, want_real: bool = True, trickery: Optional[bool] = None) -> List[Dict[str, Any]]:
+    """Every real suspension of every run: lasti, truth, real inspect_frame, real contexts.
+    trickery=False observes the referents implementation instead."""
     from stackscope import _lowlevel
+
+    if trickery is not None:
+        _lowlevel.set_trickery_enabled(trickery)
+        try:
+            return observe_all(src, kind, want_real, None)
+        finally:
+            _lowlevel.set_trickery_enabled(None)
 
     prog = compile_prog(src)
     out: List[Dict[str, Any]] = []
@@ -289,6 +300,10 @@ def observe_all(src: str, kind: str, want_real: bool = True) -> List[Dict[str, A
                         rec["real_exc"] = repr(ex)
                 rec["warnings"] = [str(x.message) for x in w if issubclass(x.category, _lowlevel.InspectionWarning)]
                 try:
+                    import gc as _gc
+
+                    rec["referent_exits"] = [r for r in _gc.get_referents(ob.gen) if isinstance(r, types.MethodType)
+                                             and r.__func__.__name__ in ("__exit__", "__aexit__")]
                     det = _lowlevel.inspect_frame(ob.frame)
                     rec["stack"] = list(det.stack)
                     rec["blocks"] = [(b.handler, b.level) for b in det.blocks]
